@@ -173,7 +173,9 @@ func ParseNDStream(r io.Reader, res chan<- Stream, reuse <-chan *ParsedJson) {
 				err = err2
 			}
 
-			if len(tmp) > 0 {
+			// A chunk of only blank lines (e.g. a short read before a trailing
+			// empty line) holds no documents and must not be handed to the parser.
+			if len(bytes.TrimSpace(tmp)) > 0 {
 				result := make(chan Stream, 0)
 				queue <- result
 				go func() {
